@@ -293,7 +293,8 @@ def case_image(img, pristine, wd, label):
         out.append(("t-fails-on-good", f"{label}: 't' exits {st_t} on an archive the library tests as good"))
     if st_x == 0:
         snap = tree_snapshot(dest) if os.path.isdir(dest) else {}
-        files = sorted((k, v[1]) for k, v in snap.items() if v[0] == "file")
+        # (a symbolic link member is delivered as a link: its text is the member's data)
+        files = sorted((k, v[1] if v[0] == "file" else v[1].encode()) for k, v in snap.items() if v[0] in ("file", "link"))
         if not ex_ok:
             out.append(("x-exits-0-on-failure", f"{label}: 'x' exits 0 although library extraction raises"))
         elif files != sorted(pristine):
